@@ -397,8 +397,10 @@ class Opt(Shape):
     def __init__(self, inner: Shape, spelling="Optional"):
         self.inner = inner
         self.T = {"Optional": lambda: t.Optional[inner.T], "pipe": lambda: inner.T | None,
-                  "Union": lambda: t.Union[inner.T, None]}[spelling]()
-        self.name = f"Optional[{inner.name}]" if spelling != "pipe" else f"{inner.name}|None"
+                  "Union": lambda: t.Union[inner.T, None], "none_first": lambda: None | inner.T,
+                  "Union_none_first": lambda: t.Union[None, inner.T]}[spelling]()
+        self.name = {"pipe": f"{inner.name}|None", "none_first": f"None|{inner.name}",
+                     "Union_none_first": f"Union[None,{inner.name}]"}.get(spelling, f"Optional[{inner.name}]")
         self.transparent = inner.transparent
 
     def build(self, src):
